@@ -22,7 +22,7 @@ def scan_body_decoding(ctx):
             if r["op"] != "jsondec":
                 continue
             n += 1
-            if "PANIC" in r["impl"]:
+            if "PANIC" in r["impl"] or r["impl"].startswith("FATAL:"):
                 p += 1
                 key = (r["id"].split("#")[0], r["type"])
                 if key in seen:
@@ -33,6 +33,9 @@ def scan_body_decoding(ctx):
                     m = bytes.fromhex(m).decode("utf-8", "replace")
                 except ValueError:
                     pass
+                if r["impl"].startswith("FATAL:"):
+                    from . import core
+                    m = "the process died (not recoverable): " + core.fatal_text(r["impl"])
                 ctx.violations.append({"kind": "decoding a JSON document into a generated type panicked (this is what Parse() does with a request body)",
                                        "case": r["id"], "type": r["type"], "panic": m[:600], "document(J form)": r["case"][4] if len(r["case"]) > 4 else None,
                                        "spec": jsonfam.spec_of(gens, r["id"])})
@@ -52,7 +55,7 @@ def scan_request_bodies(ctx):
             if "#b" not in cid:
                 continue
             n += 1
-            panic = "PANIC" in o
+            panic = "PANIC" in o or o.startswith("FATAL:")
             once = " W:1 " in o + " "
             if panic or not once:
                 bad += 1
